@@ -240,6 +240,8 @@ def step_case(rng, cfgname, thumb, code, mode=None, it=None, e=None, code_base=N
             st['hvbar'] = 0x8000
             st['hcptr'] = rng.getrandbits(14)
             st['hstr'] = rng.getrandbits(16)
+    if rng.random() < 0.25:
+        st['event_register'] = True             # an event sent by another observer before this step (SEV elsewhere / send_event_local)
     poke = [(pc, code)]
     # something recognisable in the data device and at the vectors
     poke.append((DATA[0], bytes((rng.getrandbits(8) for _ in range(DATA[1])))))
